@@ -32,6 +32,10 @@ func Dump(p *Program, substr string) {
 				case ssa.CallInstruction:
 					extra = "   ;; " + p.CalleeName(x)
 				case *ssa.If:
+					if lt := p.LinFact(x.Cond, true, CollectionAliases); lt != "" {
+						fmt.Printf("    ;; lin T:%s  F:%s\n", lt, p.LinFact(x.Cond, false, CollectionAliases))
+					}
+
 					extra = fmt.Sprintf("   ;; T:%v F:%v -> b%d b%d", p.Facts(x.Cond, true), p.Facts(x.Cond, false), b.Succs[0].Index, b.Succs[1].Index)
 				case *ssa.Jump:
 					extra = fmt.Sprintf("   -> b%d", b.Succs[0].Index)
